@@ -63,8 +63,15 @@ fn page_of(m: &M) -> &'static Page {
 }
 
 fn resolve_str(seed: &StrSeed, page: &Page) -> String {
-    let rep: Vec<char> = cpref::repertoire(page).into_iter().filter(|c| *c != '\u{feff}' && *c != '\0').collect();
+    let rep: Vec<char> = cpref::repertoire(page).into_iter().filter(|c| *c != '\0').collect();
     let mut s = String::new();
+    // every 8th string starts like a byte-order mark in its encoded form
+    if seed.chars.first().map(|c| c % 8 == 3).unwrap_or(false) {
+        let boms = cpref::bom_lookalikes(page);
+        if !boms.is_empty() {
+            s.push_str(&boms[(seed.chars[0] as usize / 8) % boms.len()]);
+        }
+    }
     for sel in &seed.chars {
         s.push(rep[pick(*sel, rep.len())]);
     }
